@@ -64,15 +64,18 @@ def gen_case(rng, tier, idx):
     budget = n - pre
     for _ in range(rng.randint(5, 40)):
         w = rng.choice(["append", "append", "append", "calculate", "calculate_one", "purge", "purge_one", "recalculate", "recalculate_one",
-                        "calc_index", "calc_index_one", "add", "remove", "calculate_twice"])
+                        "calc_index", "calc_index_one", "add", "remove", "calculate_twice", "replace"])
         if w == "append":
             k = min(budget, rng.choice([1, 1, 2, 5, 11]))
             if k == 0:
                 continue
             budget -= k
             words.append({"op": "append", "n": k})
-        elif w in ("add", "remove") and standalone:
+        elif w in ("add", "remove", "replace") and standalone:
             continue
+        elif w == "replace":
+            words.append({"op": "replace", "m": rng.randint(0, 5), "input": rng.choice(["high", "low", "open"]), "form": rng.choice(["object", "dict"]),
+                          "then": rng.choice(["nothing", "recalculate_one", "remove"])})
         elif w == "add":
             words.append({"op": "add", "spare": rng.randint(0, 1), "form": rng.choice(["object", "dict"])})
         else:
@@ -254,6 +257,33 @@ def run_case(case):
                 obj.add_indicator(new if w["form"] == "object" else configs.as_dict_form(cfg))
                 members.append((cfg, new.name))
                 complete[new.name] = False
+                changing += 1
+            elif op == "replace":
+                # add_indicator with a configuration that differs only in a parameter the name does not show (input_value): it takes the
+                # place of the registered member of that name; what the old one wrote (helpers included) must not survive into the new one
+                old_name = member_name(w.get("m", 0))
+                ocfg = next(c for c, n_ in members if n_ == old_name)
+                if ocfg["cls"] not in configs.HAS_INPUT or ocfg["cls"] in ("ROC", "STOCH", "KC", "Supertrend") or ocfg["kw"].get("input_value") == w["input"]:
+                    continue
+                ncfg = {"cls": ocfg["cls"], "kw": {**ocfg["kw"], "input_value": w["input"]}}
+                if configs.build(ncfg).name != old_name:
+                    continue
+                obj.add_indicator(configs.build(ncfg) if w["form"] == "object" else configs.as_dict_form(ncfg))
+                members = [((ncfg if n_ == old_name else c), n_) for c, n_ in members]
+                complete[old_name] = False
+                stats["replacements"] = stats.get("replacements", 0) + 1
+                if w["then"] == "recalculate_one":
+                    obj.recalculate(old_name)
+                    complete[old_name] = True
+                elif w["then"] == "remove" and len(members) > 1:
+                    obj.remove_indicator(old_name)
+                    members = [(c, n_) for c, n_ in members if n_ != old_name]
+                    complete.pop(old_name, None)
+                    left = {k for cs in lists().values() for c in cs for k in list(vars(c)["indicators"]) + list(vars(c)["sub_indicators"]) if k == old_name or k.startswith(old_name + "_")}
+                    others = {n_ for _, n_ in members}
+                    left = {k for k in left if not any(k == o or k.startswith(o + "_") for o in others)}
+                    if left:
+                        V("remove-purges", "C14|replace-remove-leftover", f"after replacing and removing {old_name!r} the candles still carry {sorted(left)[:6]}")
                 changing += 1
             elif op == "remove":
                 if len(members) <= 1:
